@@ -139,7 +139,7 @@ inductive XRes where
   | bad (what : String)
 deriving Repr, DecidableEq
 
-/-- the six transports against the same service -/
+/-- the seven transports (six ways of reaching the service, plus the CLI bridge as a bridge command) against the same service -/
 def P_xport (runs : List (String × XRes)) (act : Option ActFacts) : Verdict :=
   match runs with
   | [] => some "no-transport-ran"
@@ -150,7 +150,7 @@ def P_xport (runs : List (String × XRes)) (act : Option ActFacts) : Verdict :=
       match runs.find? (fun r => r.2 != first) with
       | some (n, _) => some ("transport-" ++ n ++ "-replies-differ")
       | none =>
-        if runs.length != 6 then some "transport-missing"
+        if runs.length != 7 then some "transport-missing"
         else match act with
           | none => some "activated-service-left-no-dump"
           | some a =>
